@@ -250,7 +250,7 @@ func (o *cmC03) nontrivial(m *chainMachine) bool { return o.zeroClose }
 var cmCloseProfile = cmProfile{weights: map[string]int{
 	"deployCreate": 3, "marketRound": 5, "advance": 3, "provider": 1, "audit": 1,
 	"leaseClose": 4, "bidClose": 3, "deployClose": 3, "leaseWithdraw": 4, "groupStart": 2, "groupPause": 2, "groupClose": 2,
-	"cert": 0, "wrongSigner": 1, "deployDeposit": 2, "withdrawThenClose": 4,
+	"cert": 0, "wrongSigner": 1, "deployDeposit": 2, "withdrawThenClose": 4, "exhaustExactly": 3,
 }}
 
 func TestVerif_C03(t *testing.T) {
